@@ -1,6 +1,7 @@
 """C35 helpers: parameter cases for date()/the three method wrappers, their encoding as
 Coq terms of coq/model/Validate.v, running the real functions and classifying the outcome,
 pathological-but-valid tree sequence generators, and crash signatures."""
+import json
 import math
 import os
 import traceback
@@ -861,6 +862,104 @@ def decorate(rng, ts, keep_mutation_free=False, p=0.3):
         return ts, []
 
 
+# ---------------------------------------------------------------- metadata-schema dimension
+STRUCT_MNVR = {"codec": "struct", "type": "object",
+               "properties": {"mn": {"type": "number", "binaryFormat": "d"}, "vr": {"type": "number", "binaryFormat": "d"}},
+               "additionalProperties": False}
+STRUCT_OTHER = {"codec": "struct", "type": "object",
+                "properties": {"x": {"type": "integer", "binaryFormat": "i"}}, "additionalProperties": False}
+STRUCT_NOPROPS = {"codec": "struct", "type": "object", "properties": {}, "additionalProperties": False}
+JSON_STRICT = {"codec": "json", "type": "object",
+               "properties": {"mn": {"type": "number"}, "vr": {"type": "number"}},
+               "required": ["mn", "vr"], "additionalProperties": False}
+JSON_PERMISSIVE = {"codec": "json"}
+META_KINDS = ("none_empty", "none_raw", "json_empty", "json_some", "json_all", "json_strict_empty",
+              "json_strict_filled", "struct_mnvr_empty", "struct_mnvr_filled", "struct_other_empty",
+              "struct_other_filled", "struct_noprops")
+
+
+def meta_rows(rng, kind, n):
+    """(schema dict or None, list of row bytes): every row DECODES under its schema"""
+    import tskit
+    if kind == "none_empty":
+        return None, [b""] * n
+    if kind == "none_raw":
+        return None, [rng.choice([b"abc", b"\x00\x01", b"{}"]) for _ in range(n)]
+    if kind == "json_empty":
+        return JSON_PERMISSIVE, [b""] * n
+    if kind in ("json_some", "json_all"):
+        rows = []
+        for i in range(n):
+            if kind == "json_some" and rng.random() < 0.5:
+                rows.append(b"")
+            else:
+                rows.append(json.dumps(rng.choice([{"name": "n%d" % i}, {"mn": 1.5, "vr": 2.0, "k": [1, 2]}, {}])).encode())
+        return JSON_PERMISSIVE, rows
+    if kind == "json_strict_empty":
+        return JSON_STRICT, [b""] * n
+    if kind == "json_strict_filled":
+        sch = tskit.MetadataSchema(JSON_STRICT)
+        return JSON_STRICT, [sch.validate_and_encode_row({"mn": float(i), "vr": 0.5}) for i in range(n)]
+    if kind == "struct_mnvr_empty":
+        return STRUCT_MNVR, [b""] * n
+    if kind == "struct_mnvr_filled":
+        sch = tskit.MetadataSchema(STRUCT_MNVR)
+        return STRUCT_MNVR, [sch.validate_and_encode_row({"mn": float(i), "vr": 0.25}) for i in range(n)]
+    if kind == "struct_other_empty":
+        return STRUCT_OTHER, [b""] * n
+    if kind == "struct_other_filled":
+        sch = tskit.MetadataSchema(STRUCT_OTHER)
+        return STRUCT_OTHER, [sch.validate_and_encode_row({"x": i}) for i in range(n)]
+    if kind == "struct_noprops":
+        return STRUCT_NOPROPS, [b""] * n
+    raise ValueError(kind)
+
+
+def apply_meta(ts, nodes=None, mutations=None):
+    """install (schema, rows) on the node and/or mutation table"""
+    import tskit
+    tables = ts.dump_tables()
+    for table, spec in ((tables.nodes, nodes), (tables.mutations, mutations)):
+        if spec is None:
+            continue
+        schema, rows = spec
+        if len(rows) != table.num_rows:
+            continue
+        table.metadata_schema = tskit.MetadataSchema(schema)
+        table.packset_metadata(list(rows))
+    return tables.tree_sequence()
+
+
+def meta_decorate(rng, ts):
+    """independent metadata state for the node and the mutation table; returns (ts, (kind_nodes, kind_mutations))"""
+    kn = rng.choice(META_KINDS)
+    km = rng.choice(META_KINDS)
+    ts2 = apply_meta(ts, meta_rows(rng, kn, ts.num_nodes), meta_rows(rng, km, ts.num_mutations))
+    return ts2, (kn, km)
+
+
+def meta_dict(ts):
+    """the metadata state of a tree sequence as plain data (for replay files)"""
+    out = {}
+    for name, table in (("nodes", ts.tables.nodes), ("mutations", ts.tables.mutations)):
+        sch = table.metadata_schema.schema
+        rows = [bytes(r).hex() for r in __import__("tskit").unpack_bytes(table.metadata, table.metadata_offset)]
+        if sch is not None or any(rows):
+            out[name] = {"schema": sch, "rows": rows}
+    return out
+
+
+def meta_from_dict(ts, d):
+    if not d:
+        return ts
+    spec = {}
+    for name in ("nodes", "mutations"):
+        if name in d:
+            spec[name] = (d[name]["schema"], [bytes.fromhex(h) for h in d[name]["rows"]])
+    return apply_meta(ts, spec.get("nodes"), spec.get("mutations"))
+
+
+
 def patho_case(rng):
     """(case, ts): a valid call on a pathological valid tree sequence"""
     for _ in range(50):
@@ -870,8 +969,13 @@ def patho_case(rng):
     ts, ex = decorate(rng, ts, keep_mutation_free=(ts.num_mutations == 0))
     if ex:
         label = label + "+" + "+".join(k[:4] for k in ex)
+    meta = None
+    if rng.random() < 0.5:
+        ts, meta = meta_decorate(rng, ts)
     method = rng.choice(["variational_gamma", "variational_gamma", "variational_gamma", None,
                          "inside_outside", "maximization"])
+    if meta is not None:
+        method = rng.choice(["variational_gamma", "inside_outside", "maximization"])
     m = method or "variational_gamma"
     p = {}
     if method is not None:
@@ -938,5 +1042,11 @@ def patho_case(rng):
                 p["max_iterations"] = V(np.int64(2))
             else:
                 p["population_size"] = rng.choice([V(np.int64(2)), {"k": "ndarray", "sizes": [1.0]}])
+    if meta is not None:
+        p["set_metadata"] = rng.choice([None, True, False])
+        if p["set_metadata"] is None and rng.random() < 0.5:
+            del p["set_metadata"]
     case = {"params": p, "entry": "date", "ts_kind": "patho:" + label, "rate_style": style}
+    if meta is not None:
+        case["meta"] = list(meta)
     return case, ts
